@@ -734,7 +734,6 @@ def run_crypt(case):
     pp = pass_of(case["pp"], seed)
     cls = f"e={e}" if e else f"pp={case['pp']}" if case["pp"] in ("empty", "long") else "base"
     want = ref.encrypt(payload, pp, e, ident)
-    assert ref.decrypt(want, pp, e, ident) == payload
     enc = attempt(ShareSet.encrypt, payload, ident, e, pp)
     if enc != want:
         res.violation(f"C15/crypt/encrypt/{cls}", vc, enc, want, "ShareSet.encrypt differs from the SLIP39 Feistel cipher")
@@ -758,7 +757,7 @@ def run_crypt(case):
         res.violation(f"C15/crypt/encrypt-not-inverse/{cls}", vc, enc2, payload, "encrypt(decrypt(x)) != x")
     else:
         res.ok("encrypt(decrypt(x))==x")
-    other = pp + b"\x00" if case["pp"] != "nul" else b""
+    other = pp + b"x"  # (a trailing NUL would be the same HMAC key: keys are zero-padded)
     wrong = attempt(ss.decrypt, want, other)
     if wrong == payload or wrong != ref.decrypt(want, other, e, ident):
         res.violation(f"C15/crypt/wrong-passphrase/{cls}", vc, wrong, "reference decryption under the other passphrase (!= payload)", "decryption with a different passphrase returns the payload or a non-reference value")
@@ -784,18 +783,19 @@ def to_text(idx):
     return " ".join(ref.WORDS[i] for i in idx)
 
 
-PAIR_D = (1, 2, 0x10, 0x155, 0x200, 0x2AA, 0x3FF, 0x0F3, 0x30C)
-TRIPLE_D = (1, 0x200, 0x3FF)
+PAIR_D = (1, 0x200, 0x3FF, 0x155, 0x2AA, 2, 0x10, 0x0F3, 0x30C)
+TRIPLE_D = (1, 0x3FF, 0x200)
 
 
 def gen_subst(tier, seed):
     cases = []
+    full = tier == "thorough"
     for L in (20, 33):
-        for which in (0, 1, 2):
+        for which in (0, 1, 2) if full else (0, 2):
             for p in range(L):
                 cases.append({"kind": "single", "L": L, "base": which, "p": p, "seed": seed})
         for p1, p2 in itertools.combinations(range(L), 2):
-            cases.append({"kind": "grid", "L": L, "base": 0, "p1": p1, "p2": p2, "seed": seed})
+            cases.append({"kind": "grid", "L": L, "base": 0, "p1": p1, "p2": p2, "nd2": 9 if full else 5, "nd3": 3 if full else 2, "seed": seed})
     return cases
 
 
@@ -812,10 +812,10 @@ def run_subst(case):
         res.violation(f"C15/subst/honest-rejected/L{L}", vc, repr(honest), "parses", "an uncorrupted share is rejected")
         return res
 
-    def probe(mod, n_err):
+    def probe(mod, n_err, verify=True):
         """mod: corrupted index list; records the outcome"""
         r = attempt(Share.parse, to_text(mod))
-        v = attempt(rs1024_verify_checksum, ref.CUSTOM, list(mod))
+        v = attempt(rs1024_verify_checksum, ref.CUSTOM, list(mod)) if verify else False
         if not isinstance(r, Rejected):
             res.violation(f"C15/subst/accepted/{n_err}-word/L{L}", vc, {"text": to_text(mod), "diff": [i for i in range(L) if mod[i] != idx[i]]}, "rejection", f"a share with {n_err} substituted word(s) parses")
             return False
@@ -832,10 +832,12 @@ def run_subst(case):
                 continue
             mod = list(idx)
             mod[p] = w
-            if probe(mod, 1):
+            if probe(mod, 1, verify=False):
                 n_ok += 1
             got = attempt(rs1024_polymod, pre + mod)
             want = ref.rs1024_residue(pre + mod)
+            if got == 1:
+                res.violation(f"C15/subst/checksum-passes/1-word/L{L}", vc, {"text": to_text(mod)}, "polymod != 1", "the RS1024 polymod of a share with one substituted word is 1")
             if got != want:
                 res.violation(f"C15/subst/polymod/L{L}", vc, {"values": mod, "got": got}, want, "rs1024_polymod differs from the GF(1024) remainder modulo (X-a)(X-a^2)(X-a^3)")
                 break
@@ -843,8 +845,9 @@ def run_subst(case):
         return res
     p1, p2 = case["p1"], case["p2"]
     n_ok = 0
-    for d1 in PAIR_D:
-        for d2 in PAIR_D:
+    pair_d, triple_d = PAIR_D[: case["nd2"]], TRIPLE_D[: case["nd3"]]
+    for d1 in pair_d:
+        for d2 in pair_d:
             mod = list(idx)
             mod[p1] ^= d1
             mod[p2] ^= d2
@@ -852,9 +855,9 @@ def run_subst(case):
     res.bulk("double-substitution-rejected", n_ok, n_ok)
     n_ok = 0
     for p3 in range(p2 + 1, L):
-        for d1 in TRIPLE_D:
-            for d2 in TRIPLE_D:
-                for d3 in TRIPLE_D:
+        for d1 in triple_d:
+            for d2 in triple_d:
+                for d3 in triple_d:
                     mod = list(idx)
                     mod[p1] ^= d1
                     mod[p2] ^= d2
@@ -869,24 +872,41 @@ def run_subst(case):
 _syn_cache = {}
 
 
-def syndromes(L, which, seed):
-    """S[p][d] = polymod(word with index p xored by d) ^ polymod(word), computed with the library function."""
-    key = (L, which, seed)
-    if key not in _syn_cache:
+class Syndromes:
+    """S[p][d] = polymod(word with index p xored by d) ^ polymod(word), computed with the library function,
+    rows built on demand (one worker-level cache per word length)."""
+
+    def __init__(self, L, which, seed):
         from buidl.shamir import rs1024_polymod
 
-        _, idx = base_share(L, which, seed)
-        pre = list(ref.CUSTOM)
-        p0 = rs1024_polymod(pre + idx)
-        S = []
-        for p in range(L):
-            row = [0] * 1024
-            mod = list(idx)
-            for d in range(1, 1024):
-                mod[p] = idx[p] ^ d
-                row[d] = rs1024_polymod(pre + mod) ^ p0
-            S.append(row)
-        _syn_cache[key] = (p0, S, frozenset(v for row in S for v in row[1:]))
+        self.polymod = rs1024_polymod
+        self.L = L
+        _, self.idx = base_share(L, which, seed)
+        self.pre = list(ref.CUSTOM)
+        self.p0 = rs1024_polymod(self.pre + self.idx)
+        self.rows = {}
+        self._all = None
+
+    def of(self, p, d):
+        mod = list(self.idx)
+        mod[p] ^= d
+        return self.polymod(self.pre + mod) ^ self.p0
+
+    def __getitem__(self, p):
+        if p not in self.rows:
+            self.rows[p] = [0] + [self.of(p, d) for d in range(1, 1024)]
+        return self.rows[p]
+
+    def all(self):
+        if self._all is None:
+            self._all = frozenset(v for p in range(self.L) for v in self[p][1:])
+        return self._all
+
+
+def syndromes(L, which, seed):
+    key = (L, which, seed)
+    if key not in _syn_cache:
+        _syn_cache[key] = Syndromes(L, which, seed)
     return _syn_cache[key]
 
 
@@ -896,9 +916,25 @@ def gen_syndrome(tier, seed):
         cases.append({"kind": "singles", "L": L, "seed": seed})
         for p in range(L):
             cases.append({"kind": "affine", "L": L, "p": p, "seed": seed})
-        for p1, p2 in itertools.combinations(range(L), 2):
-            cases.append({"kind": "pair", "L": L, "p1": p1, "p2": p2, "seed": seed})
+        for p1 in range(L - 2):
+            cases.append({"kind": "rank", "L": L, "p1": p1, "seed": seed})
+        if L == 20 or tier == "thorough":
+            for p1, p2 in itertools.combinations(range(L), 2):
+                cases.append({"kind": "pair", "L": L, "p1": p1, "p2": p2, "seed": seed})
     return cases
+
+
+def gf2_rank(vectors):
+    """rank over GF(2) of integers seen as bit vectors"""
+    basis = {}
+    for v in vectors:
+        while v:
+            h = v.bit_length() - 1
+            if h not in basis:
+                basis[h] = v
+                break
+            v ^= basis[h]
+    return len(basis)
 
 
 def run_syndrome(case):
@@ -907,10 +943,11 @@ def run_syndrome(case):
     res = Res()
     L, seed = case["L"], case["seed"]
     vc = {"engine": "syndrome", "case": case}
-    p0, S, T = syndromes(L, 0, seed)
-    _, idx = base_share(L, 0, seed)
+    S = syndromes(L, 0, seed)
+    p0, idx = S.p0, S.idx
     pre = list(ref.CUSTOM)
     if case["kind"] == "singles":
+        T = S.all()
         if p0 != 1:
             res.violation(f"C15/syndrome/honest/L{L}", vc, p0, 1, "polymod of an uncorrupted share is not 1")
         if 0 in T:
@@ -921,6 +958,58 @@ def run_syndrome(case):
         else:
             res.bulk("single-syndromes-nonzero-and-distinct", L * 1023, L * 1023)
             res.notes[f"L{L}: double substitutions decided by distinctness of single syndromes"] = L * (L - 1) // 2 * 1023 * 1023
+        # linearity inside one position: S[p][d] is the xor of S[p][bit] over the bits of d (used by the rank cases)
+        for p in range(L):
+            for d in range(1, 1024):
+                acc = 0
+                for b in range(10):
+                    if d >> b & 1:
+                        acc ^= S[p][1 << b]
+                if acc != S[p][d]:
+                    res.violation(f"C15/syndrome/not-linear-in-error/L{L}", vc, {"p": p, "d": d}, "xor of the bit syndromes", "single-error syndromes are not GF(2)-linear in the error value")
+                    return res
+        res.bulk("syndrome-linear-in-error-value", L * 1023, L * 1023)
+        return res
+    if case["kind"] == "rank":
+        # the 30 bit-syndromes of any three positions are linearly independent <=> no corruption confined to
+        # those positions (1, 2 or 3 words, any values) has syndrome zero
+        p1 = case["p1"]
+        n_ok = 0
+        key = ("bits", L, seed)
+        if key not in _syn_cache:
+            _syn_cache[key] = [[S.of(p, 1 << b) for b in range(10)] for p in range(L)]
+        bits = _syn_cache[key]
+        for p2 in range(p1 + 1, L):
+            for p3 in range(p2 + 1, L):
+                vecs = [bits[p][b] for p in (p1, p2, p3) for b in range(10)]
+                if gf2_rank(vecs) != 30:
+                    # find the concrete undetected corruption by brute force over the dependent span
+                    T3 = {S[p3][d]: d for d in range(1024)}
+                    found = None
+                    for d1 in range(1024):
+                        for d2 in range(1024):
+                            d3 = T3.get(S[p1][d1] ^ S[p2][d2])
+                            if d3 is not None and (d1 or d2 or d3):
+                                found = (d1, d2, d3)
+                                break
+                        if found:
+                            break
+                    mod = list(idx)
+                    for p, d in zip((p1, p2, p3), found):
+                        mod[p] ^= d
+                    nerr = sum(1 for i in range(L) if mod[i] != idx[i])
+                    v = attempt(rs1024_verify_checksum, ref.CUSTOM, mod)
+                    res.violation(
+                        f"C15/syndrome/{nerr}-word-undetected/L{L}",
+                        vc,
+                        {"positions": [p1, p2, p3], "xors": list(found), "text": to_text(mod), "verify_checksum": repr(v)},
+                        "checksum failure",
+                        f"a corruption of {nerr} words passes rs1024_verify_checksum",
+                    )
+                    return res
+                n_ok += 1
+        res.bulk("position-triple-has-full-rank", n_ok, n_ok)
+        res.notes[f"L{L}: corruptions of <=3 words decided by rank (2^30-1 patterns per position triple; patterns on fewer positions are counted repeatedly)"] = n_ok * (2**30 - 1)
         return res
     if case["kind"] == "affine":
         # the table must not depend on the word it was computed from, and syndromes must add up
@@ -951,6 +1040,7 @@ def run_syndrome(case):
         res.bulk("syndrome-table-base-independent-and-additive", n_ok, n_ok)
         return res
     p1, p2 = case["p1"], case["p2"]
+    T = S.all()
     row2 = S[p2][1:]
     hit = None
     for d1 in range(1, 1024):
